@@ -1,5 +1,44 @@
-import Driver.Proto
-/-! C08 handler (not implemented yet). -/
+import Driver.C04
+import ThunderModel.Reactive.Release
+/-! C08 handler: replay of the invalidation trace (as C04) and of the release trace. -/
+open Lean TM
+
 namespace Driver.C08
-def handle : Handler := fun _ => throw "C08: no model yet"
+
+def decLabel (j : Json) : Except String Release.Label := do
+  let k ← str j "l"
+  let a := (j.getObjValAs? Nat "a").toOption.getD 0
+  let b := (j.getObjValAs? Nat "b").toOption.getD 0
+  match k with
+  | "newNode" => pure .newNode
+  | "callRelease" => pure (.callRelease a)
+  | "addOut" => pure (.addOut a b)
+  | "relCS" => pure (.relCS a)
+  | "relEdge" => pure (.relEdge a b)
+  | "handleRelease" => pure (.handleRelease a)
+  | _ => throw s!"bad release label {k}"
+
+def replay : Release.St → List Release.Label → Nat → Release.St × Option Nat
+  | s, [], _ => (s, none)
+  | s, l :: ls, i => match Release.step s l with
+      | some s' => replay s' ls (i + 1)
+      | none => (s, some i)
+
+def encSt (s : Release.St) : Json :=
+  Json.mkObj [
+    ("nodes", Json.arr (s.nodes.map fun n => Json.mkObj [("released", n.released), ("fired", (n.fired : Nat)),
+      ("handler", n.handler), ("everOut", n.everOut), ("out", jNats n.out)]).toArray),
+    ("pendRel", jNats s.pendRel),
+    ("pendEdge", Json.arr (s.pendEdge.map fun (a, b) => Json.arr #[(a : Json), (b : Json)]).toArray)]
+
+def handle : Handler := fun req => do
+  let op ← str req "op"
+  match op with
+  | "replay" => Driver.C04.handle req
+  | "replayRelease" =>
+    let ls ← listOf decLabel (← field req "labels")
+    let (s, bad) := replay Release.init ls 0
+    pure <| Json.mkObj [("state", encSt s), ("stuck", match bad with | some i => (i : Json) | none => Json.null)]
+  | _ => throw s!"C08: unknown op {op}"
+
 end Driver.C08
